@@ -2,10 +2,11 @@
 """prompt for an independent audit agent: find violations of the given properties on the UNCHANGED tree"""
 import json, sys
 wt = sys.argv[1]; pids = sys.argv[2:]
-round2 = pids and pids[0] == "round2"
+round3 = pids and pids[0] == "round3"
+round2 = pids and pids[0] in ("round2", "round3")
 if round2: pids = pids[1:]
 props = {json.loads(l)['id']: json.loads(l) for l in open('/verif/properties.jsonl')}
-out = ("/tmp/auditout2/" if round2 else "/tmp/auditout/") + "-".join(pids)
+out = ("/tmp/auditout3/" if round3 else "/tmp/auditout2/" if round2 else "/tmp/auditout/") + "-".join(pids)
 txt = []
 for pid in pids:
     p = props[pid]
